@@ -628,9 +628,9 @@ Proof.
   destruct rest as [|c2 rest].
   - cbn [wrap_dotted]. destruct first; reflexivity.
   - change (wrap_dotted first (c :: c2 :: rest) (Def h ws a))
-      with (Scp (mkhdr c false 0 (negb first) 0 0) [wrap_dotted false (c2 :: rest) (Def h ws a)] []).
+      with (Scp (mkhdr c false 0 (negb first) (opid (ohdr (Def h ws a))) 0) [wrap_dotted false (c2 :: rest) (Def h ws a)] []).
     change (wrap_dotted first (c :: c2 :: rest) (Def h ws (set_attr n v a)))
-      with (Scp (mkhdr c false 0 (negb first) 0 0) [wrap_dotted false (c2 :: rest) (Def h ws (set_attr n v a))] []).
+      with (Scp (mkhdr c false 0 (negb first) (opid (ohdr (Def h ws (set_attr n v a)))) 0) [wrap_dotted false (c2 :: rest) (Def h ws (set_attr n v a))] []).
     cbn [attach]. rewrite IH. reflexivity.
 Qed.
 Lemma attach_adopt : forall n v h ws a, attach n v (adopt (Def h ws a)) = adopt (Def h ws (set_attr n v a)).
@@ -644,10 +644,10 @@ Proof.
   destruct rest as [|c2 rest].
   - cbn [wrap_dotted]. destruct first; [reflexivity|]. destruct x; reflexivity.
   - change (wrap_dotted first (c :: c2 :: rest) x)
-      with (Scp (mkhdr c false 0 (negb first) 0 0) [wrap_dotted false (c2 :: rest) x] []).
+      with (Scp (mkhdr c false 0 (negb first) (opid (ohdr x)) 0) [wrap_dotted false (c2 :: rest) x] []).
     change (wrap_dotted first (c :: c2 :: rest) (erase_obj x))
-      with (Scp (mkhdr c false 0 (negb first) 0 0) [wrap_dotted false (c2 :: rest) (erase_obj x)] []).
-    cbn [erase_obj map]. rewrite IH. reflexivity.
+      with (Scp (mkhdr c false 0 (negb first) (opid (ohdr (erase_obj x))) 0) [wrap_dotted false (c2 :: rest) (erase_obj x)] []).
+    cbn [erase_obj map]. rewrite IH. destruct x; reflexivity.
 Qed.
 Lemma erase_obj_adoptB : forall x, erase_obj (adopt x) = adopt (erase_obj x).
 Proof.
@@ -1481,10 +1481,10 @@ Proof.
   destruct rest as [|c2 rest].
   - cbn [wrap_dotted]. destruct first; [reflexivity|]. destruct x; reflexivity.
   - change (wrap_dotted first (c :: c2 :: rest) x)
-      with (Scp (mkhdr c false 0 (negb first) 0 0) [wrap_dotted false (c2 :: rest) x] []).
+      with (Scp (mkhdr c false 0 (negb first) (opid (ohdr x)) 0) [wrap_dotted false (c2 :: rest) x] []).
     change (wrap_dotted first (c :: c2 :: rest) (noattr x))
-      with (Scp (mkhdr c false 0 (negb first) 0 0) [wrap_dotted false (c2 :: rest) (noattr x)] []).
-    cbn [noattr map]. rewrite IH. reflexivity.
+      with (Scp (mkhdr c false 0 (negb first) (opid (ohdr (noattr x))) 0) [wrap_dotted false (c2 :: rest) (noattr x)] []).
+    cbn [noattr map]. rewrite IH. destruct x; reflexivity.
 Qed.
 Lemma noattr_adopt : forall x, noattr (adopt x) = adopt (noattr x).
 Proof.
